@@ -212,6 +212,16 @@ class Core:
             fact = z3.ForAll([bv], z3.Implies(zbool(guard), fact))
         self.assumptions.append(fact)
 
+    def oblige_split(self, kind, label, goal, st, node=None, info=None, depth=0):
+        """one obligation per top-level conjunct: smaller queries, and a failure names the conjunct"""
+        if self.dry or self.spec:
+            return
+        if z3.is_expr(goal) and z3.is_and(goal) and depth < 3 and goal.num_args() > 1:
+            for i, c in enumerate(goal.children()):
+                self.oblige_split(kind, "%s.%d" % (label, i), c, st, node, info, depth + 1)
+            return
+        self.oblige(kind, label, goal, st, node, info)
+
     def oblige(self, kind, label, goal, st, node=None, info=None):
         if self.dry or self.spec:
             return
@@ -494,6 +504,11 @@ class Core:
             return z3.Select(self.S.sort(coll.ty).dom(coll.z), self.coerce(x, coll.ty.k, node).z)
         if k == "Opt":
             return self.member(x, self.opt_val(coll), node)
+        if k == "Kwargs":
+            name = [t for t, c in self.S._lits.items() if x.ty.kind == "Str" and c.eq(x.z)]
+            if not name:
+                raise Unsupported("non-literal key tested against **kwargs", node)
+            return z3.BoolVal(name[0] in coll.py)
         raise Unsupported("membership in %r" % (coll.ty,), node)
 
     # ------------------------------------------------------------------ heap
